@@ -130,8 +130,8 @@ Qed.
 
 (** with weights (fragment [Frag.frag2]) *)
 Theorem C06_accepted_exact_frag2 : forall (fb : flat), frag2 fb = true -> enumerates fb -> fl_errors_fail fb = false ->
-  NoDup (map (cand_tseq fb) (accepted_keys fb)) /\
-  (forall s, In s (map (cand_tseq fb) (accepted_keys fb)) <-> valid_b (code_sem fb) s = true).
+  NoDup (map (cand_fseq fb) (accepted_keys fb)) /\
+  (forall s, In s (map (cand_fseq fb) (accepted_keys fb)) <-> valid_b (code_sem fb) s = true).
 Proof. exact f2_accepted_exact. Qed.
 Print Assumptions C06_accepted_exact_frag2.
 
@@ -144,9 +144,9 @@ Print Assumptions C06_keys_count_frag2.
 Theorem C06_count_exact_frag2 : forall (fb : flat), frag2 fb = true -> forall (en : enumerator),
   make_enumerator fb = ROk en -> (exists ks, all_keys fb en = ROk ks) ->
   fl_errors_fail fb = false -> rejection_free fb = true ->
-  NoDup (map (cand_tseq fb) (keys_of fb)) /\
-  (forall s, In s (map (cand_tseq fb) (keys_of fb)) <-> valid_b (code_sem fb) s = true) /\
-  Z.of_nat (length (map (cand_tseq fb) (keys_of fb))) = possible_keys fb en.
+  NoDup (map (cand_fseq fb) (keys_of fb)) /\
+  (forall s, In s (map (cand_fseq fb) (keys_of fb)) <-> valid_b (code_sem fb) s = true) /\
+  Z.of_nat (length (map (cand_fseq fb) (keys_of fb))) = possible_keys fb en.
 Proof. exact f2_count_exact. Qed.
 Print Assumptions C06_count_exact_frag2.
 
@@ -155,8 +155,8 @@ Theorem C06_exhaust_frag2 : forall (fb : flat), frag2 fb = true -> enumerates fb
   (forall k, In k draws -> In k (keys_of fb)) ->
   sample_loop key key_eqb (key_accepted fb) (length (keys_of fb)) requested draws nil nil = Some res ->
   length (keys_of fb) <= requested ->
-  NoDup (map (cand_tseq fb) res) /\
-  (forall s, In s (map (cand_tseq fb) res) <-> valid_b (code_sem fb) s = true).
+  NoDup (map (cand_fseq fb) res) /\
+  (forall s, In s (map (cand_fseq fb) res) <-> valid_b (code_sem fb) s = true).
 Proof. exact f2_loop_exhausts. Qed.
 Print Assumptions C06_exhaust_frag2.
 
